@@ -385,6 +385,10 @@ class GraphicsTerminal:
             end_row=rows,
         )
         cur_x, cur_y = self.get_cursor_position()
+        # The cursor may be past the last column with a wrap pending (it is then
+        # reported in the last column): cancel the wrap, or the first cell would be
+        # printed on the next line.
+        self._write(b"\033[%dG" % (cur_x + 1), comment="Cancel a pending wrap")
         self.tracked_cursor_position = None
         self.print_placeholder(placeholder, mode=mode)
         if put_command.do_not_move_cursor:
